@@ -33,6 +33,14 @@ fn targets() -> Vec<(&'static str, &'static str, u64, Vec<FaultAction>)> {
         ("read", "sibling", 8, vec![E(5), E(4), S(1), S(100)]),
         ("write", "output", 700, vec![E(28), E(5), E(122), E(27), E(4), S(1), S(7)]),
         ("close", "output", 1, vec![E(5)]),
+        // a tool that stages its output in a temporary file and renames it (none of these calls exist on HEAD)
+        ("write", "outtmp", 700, vec![E(28), E(5), E(4), S(1), S(7)]),
+        ("close", "outtmp", 1, vec![E(5)]),
+        ("open", "outtmp", 1, vec![E(13), E(28)]),
+        ("rename", "output", 1, vec![E(18), E(13), E(28), E(5)]),
+        ("fsync", "output", 1, vec![E(5), E(28)]),
+        ("fsync", "outtmp", 1, vec![E(5), E(28)]),
+        ("ftruncate", "output", 1, vec![E(5), E(27)]),
         ("close", "input", 1, vec![E(5)]),
         ("opendir", "dir", 1, vec![E(13), E(20), E(24)]),
         ("readdir", "dir", 9, vec![E(5), E(13)]),
@@ -670,7 +678,7 @@ fn build_tapes(sets: &[InputSet], tier: &str, seed: u64) -> (Vec<Vec<u64>>, Valu
         enumerated.push(json!({"scenario": case_json(sets, base), "intercepted_calls": clean.cli.trace.len(), "fault_cases": n_faults}));
     }
     // (3) seeded mixes
-    let n_seeded = if thorough { 60_000 } else { 2_500 };
+    let n_seeded = if thorough { 250_000 } else { 2_500 };
     for r in 0..n_seeded {
         let mut ch = Chooser::explore(Rng::derive(seed, "os-seeded", r));
         let mut c = decode_case(&mut ch, sets.len());
